@@ -43,6 +43,9 @@ namespace Krylov
 variable {K V : Type}
 variable [Add K] [Sub K] [Mul K] [Neg K] [Div K] [Zero K] [One K] [BEq K] [Transc K]
 
+/-- the divisor of the relative residual: `‖b‖`, or `1.0` when `‖b‖ == 0.0` -/
+def guardNorm (nb : K) : K := if nb == 0 then 1 else nb
+
 /-! ### CG -/
 structure CGState (K V : Type) where
   x : V
@@ -51,10 +54,14 @@ structure CGState (K V : Type) where
   rho1 : K
   resid : K
 
+/-- CG search direction: `p = z` in the first iteration, else `z + p * (rho / rho_1)` -/
+def cgDir (o : VOps K V) (i : Nat) (z p : V) (rho rho1 : K) : V :=
+  if i == 1 then z else o.add z (o.smul p (rho / rho1))
+
 def cgStep (o : VOps K V) (normb tol : K) (i : Nat) (s : CGState K V) : Step (CGState K V) (KOut K V) :=
   let z := s.r
   let rho := o.dot s.r z
-  let p := if i == 1 then z else o.add z (o.smul s.p (rho / s.rho1))
+  let p := cgDir o i z s.p rho s.rho1
   let q := o.A p
   let alpha := rho / o.dot p q
   let x := o.add s.x (o.smul p alpha)
@@ -66,7 +73,7 @@ def cgStep (o : VOps K V) (normb tol : K) (i : Nat) (s : CGState K V) : Step (CG
 def solveCG (o : VOps K V) (b x : V) (maxIter : Nat) (tol : K) : KOut K V :=
   let normb0 := o.norm2 b
   let r := o.sub b (o.A x)
-  let normb := if normb0 == 0 then 1 else normb0
+  let normb := guardNorm normb0
   let resid := o.norm2 r / normb
   if Transc.le resid tol then ⟨true, 0, resid, x⟩
   else iterate (cgStep o normb tol) (fun s => ⟨false, maxIter, s.resid, s.x⟩) maxIter 1
@@ -83,14 +90,20 @@ structure BiCGState (K V : Type) where
   rho2 : K
   err : K
 
+/-- BiCG direction update (used for both `p` and `pp`) -/
+def bicgDir (o : VOps K V) (i : Nat) (z p : V) (rho1 rho2 : K) : V :=
+  if i == 1 then z else o.add z (o.smul p (rho1 / rho2))
+
+/-- BiCG error measure: itol 1 uses `r`, itol 2 the preconditioned residual `z` -/
+def bicgErr (o : VOps K V) (itol : Nat) (r z : V) (bnrm : K) : K :=
+  if itol == 1 then o.norm2 r / bnrm else o.norm2 z / bnrm
+
 def bicgStep (o : VOps K V) (bnrm tol : K) (itol : Nat) (i : Nat) (s : BiCGState K V) :
     Step (BiCGState K V) (KOut K V) :=
   let zz := s.rr
   let rho1 := o.dot s.z s.rr
-  let (p, pp) := if i == 1 then (s.z, zz)
-    else
-      let beta := rho1 / s.rho2
-      (o.add s.z (o.smul s.p beta), o.add zz (o.smul s.pp beta))
+  let p := bicgDir o i s.z s.p rho1 s.rho2
+  let pp := bicgDir o i zz s.pp rho1 s.rho2
   let z := o.A p
   let alpha := rho1 / o.dot z pp
   let zz := o.At pp
@@ -98,7 +111,7 @@ def bicgStep (o : VOps K V) (bnrm tol : K) (itol : Nat) (i : Nat) (s : BiCGState
   let r := o.sub s.r (o.smul z alpha)
   let rr := o.sub s.rr (o.smul zz alpha)
   let z := r
-  let err := if itol == 1 then o.norm2 r / bnrm else o.norm2 z / bnrm
+  let err := bicgErr o itol r z bnrm
   if Transc.le err tol then .done ⟨true, i, err, x⟩
   else .cont ⟨x, r, rr, z, p, pp, rho1, err⟩
 
@@ -108,8 +121,8 @@ def solveBiCG (o : VOps K V) (b x : V) (maxIter : Nat) (tol : K) (itol : Nat) : 
   let rr := r
   let bnrm0 := o.norm2 b     -- itol 1: ‖b‖; itol 2: ‖M⁻¹ b‖ with M = I
   let z := r
-  let bnrm := if bnrm0 == 0 then 1 else bnrm0
-  let err := if itol == 1 then o.norm2 r / bnrm else o.norm2 z / bnrm
+  let bnrm := guardNorm bnrm0
+  let err := bicgErr o itol r z bnrm
   if Transc.le err tol then ⟨true, 0, err, x⟩
   else iterate (bicgStep o bnrm tol itol) (fun s => ⟨false, maxIter, s.err, s.x⟩) maxIter 1
         ⟨x, r, rr, z, o.zero, o.zero, 1, err⟩
@@ -125,15 +138,17 @@ structure StabState (K V : Type) where
   omega : K
   resid : K
 
+/-- BiCGSTAB direction: `r` first, else `r + beta * (p - omega * v)` -/
+def stabDir (o : VOps K V) (i : Nat) (s : StabState K V) (rho1 : K) : V :=
+  if i == 1 then s.r
+  else o.add s.r (o.lsmul ((rho1 / s.rho2) * (s.alpha / s.omega)) (o.sub s.p (o.lsmul s.omega s.v)))
+
 def stabStep (o : VOps K V) (rtilde : V) (normb tol : K) (i : Nat) (s : StabState K V) :
     Step (StabState K V) (KOut K V) :=
   let rho1 := o.dot rtilde s.r
   if rho1 == 0 then .done ⟨false, i, o.norm2 s.r / normb, s.x⟩
   else
-    let p := if i == 1 then s.r
-      else
-        let beta := (rho1 / s.rho2) * (s.alpha / s.omega)
-        o.add s.r (o.lsmul beta (o.sub s.p (o.lsmul s.omega s.v)))
+    let p := stabDir o i s rho1
     let phat := p
     let v := o.A phat
     let alpha := rho1 / o.dot rtilde v
@@ -158,7 +173,7 @@ def solveBiCGSTAB (o : VOps K V) (b x : V) (maxIter : Nat) (tol : K) : KOut K V 
   let normb0 := o.norm2 b
   let r := o.sub b (o.A x)
   let rtilde := r
-  let normb := if normb0 == 0 then 1 else normb0
+  let normb := guardNorm normb0
   let resid := o.norm2 r / normb
   if Transc.le resid tol then ⟨true, 0, resid, x⟩
   else iterate (stabStep o rtilde normb tol) (fun s => ⟨false, maxIter, s.resid, s.x⟩) maxIter 1
@@ -184,6 +199,14 @@ structure QMRState (K V : Type) where
   ep : K
   resid : K
 
+/-- QMR direction: `y - c * p` after the first iteration, `y` in the first -/
+def qmrDir (o : VOps K V) (i : Nat) (y p : V) (c : K) : V :=
+  if i > 1 then o.sub y (o.lsmul c p) else y
+
+/-- QMR update vectors `d`, `s`: `eta * p + c * d` after the first iteration, `eta * p` in the first -/
+def qmrUpd (o : VOps K V) (i : Nat) (eta : K) (p : V) (c : K) (d : V) : V :=
+  if i > 1 then o.add (o.lsmul eta p) (o.lsmul c d) else o.lsmul eta p
+
 def qmrStep (o : VOps K V) (normb tol : K) (i : Nat) (s : QMRState K V) :
     Step (QMRState K V) (KOut K V) :=
   let fail : Step (QMRState K V) (KOut K V) := .done ⟨false, i, s.resid, s.x⟩
@@ -199,8 +222,8 @@ def qmrStep (o : VOps K V) (normb tol : K) (i : Nat) (s : QMRState K V) :
     else
       let yT := y
       let zT := z
-      let p := if i > 1 then o.sub yT (o.lsmul (s.xi * delta / s.ep) s.p) else yT
-      let q := if i > 1 then o.sub zT (o.lsmul (s.rho * delta / s.ep) s.q) else zT
+      let p := qmrDir o i yT s.p (s.xi * delta / s.ep)
+      let q := qmrDir o i zT s.q (s.rho * delta / s.ep)
       let pT := o.A p
       let ep := o.dot q pT
       if ep == 0 then fail
@@ -223,10 +246,8 @@ def qmrStep (o : VOps K V) (normb tol : K) (i : Nat) (s : QMRState K V) :
           if gamma == 0 then fail
           else
             let eta := -s.eta * rho1 * gamma * gamma / (beta * gamma1 * gamma1)
-            let d := if i > 1 then o.add (o.lsmul eta p) (o.lsmul (theta1 * theta1 * gamma * gamma) s.d)
-                     else o.lsmul eta p
-            let sv := if i > 1 then o.add (o.lsmul eta pT) (o.lsmul (theta1 * theta1 * gamma * gamma) s.s)
-                     else o.lsmul eta pT
+            let d := qmrUpd o i eta p (theta1 * theta1 * gamma * gamma) s.d
+            let sv := qmrUpd o i eta pT (theta1 * theta1 * gamma * gamma) s.s
             let x := o.add s.x d
             let r := o.sub s.r sv
             let resid := o.norm2 r / normb
@@ -236,7 +257,7 @@ def qmrStep (o : VOps K V) (normb tol : K) (i : Nat) (s : QMRState K V) :
 def solveQMR (o : VOps K V) (b x : V) (maxIter : Nat) (tol : K) : KOut K V :=
   let normb0 := o.norm2 b
   let r := o.sub b (o.A x)
-  let normb := if normb0 == 0 then 1 else normb0
+  let normb := guardNorm normb0
   let resid := o.norm2 r / normb
   if Transc.le resid tol then ⟨true, 0, resid, x⟩
   else
